@@ -177,19 +177,19 @@ func Run(c *core.Ctx) int {
 	if want("transparency") {
 		add(k.transparencyJobs())
 	}
+	if want("conc") {
+		add(k.concurrencyJobs())
+	}
+	if want("crash") {
+		add(k.crashJobs())
+	}
 	if want("iso") {
 		add(k.isolationJobs())
 	}
 	if want("damage") {
 		add(k.damageJobs())
 	}
-	if want("crash") {
-		add(k.crashJobs())
-	}
-	if want("conc") {
-		add(k.concurrencyJobs())
-	}
-	// longest first would be ideal; the e2e and crash baselines are at the front of their lists
+	// long sequential chains first (end-to-end sessions, process swarm, crash baselines)
 	c.Parallel(len(jobs), func(i int) { jobs[i]() })
 	post = append(post, k.raceJobs(<-raceBin)...)
 	c.Parallel(len(post), func(i int) { post[i]() })
